@@ -30,6 +30,7 @@ OPS = [
     "parse_args_class", "parse_string_fail",
     "nested_opt_k", "nested_opt_r",
     "parse_string_other_class", "parse_env_other_class", "parse_object_nodefaults_other_class", "cfg_fail_after_class", "parse_string_init_only",
+    "help_callable_class", "help_class",
 ]
 QUICK_OPS = OPS[:18] + OPS[20:]
 
@@ -58,6 +59,9 @@ def _factory():
     p.add_argument("--m", type=Base, default=None)
     # a class-typed argument whose default is a spec with init_args: a class change must not edit the declared default
     p.add_argument("--sd", type=Base, default={"class_path": "vf.fixtures.Sub1", "init_args": {"w": 5, "z": 0.75}})
+    from typing import Callable
+
+    p.add_argument("--fnarg", type=Optional[Callable[[int], Base]], default=None)  # its --fnarg.help skips the parameter the callable takes
     p.add_argument("--tags", type=List[str], default=["base"])
     p.add_argument("--opt", type=Optional[float], default=None)
     p.add_class_arguments(OptHolder, "grp")
@@ -152,17 +156,28 @@ def _run(parser, op, ints):
                 r = parser.parse_args(["--m=Sub1", "--cfg", "a: bad", "fit"])
             elif op == "parse_string_init_only":  # init_args without a class: an error unless something remembers a class
                 r = parser.parse_string("m:\n  init_args:\n    z: 0.25\nfit:\n  x: 6\n")
+            elif op == "help_callable_class":
+                r = parser.parse_args(["--fnarg.help", "Sub1"])
+            elif op == "help_class":
+                r = parser.parse_args(["--m.help", "Sub1"])
             elif op == "parse_args_class":
                 r = parser.parse_args(["--m=Sub1", "--m.w=8", "test", "--y=[3]"])
             else:
                 raise RuntimeError(op)
-        return ("ok", _plain(r), out.getvalue())
+        return ("ok", _plain(r), _prog(out.getvalue()))
     except ArgumentError as ex:
-        return ("ArgumentError", str(ex)[:300], out.getvalue())
+        return ("ArgumentError", str(ex)[:300], _prog(out.getvalue()))
     except SystemExit as ex:
-        return ("exit", ex.code, out.getvalue(), err.getvalue()[-200:])
+        return ("exit", ex.code, _prog(out.getvalue()), _prog(err.getvalue())[-200:])
     except (TypeError, KeyError, ValueError) as ex:
         return ("raised:" + type(ex).__name__, str(ex)[:300])
+
+
+def _prog(text):
+    """Help parsers created on the fly take the name of the running script: not part of the compared outcome."""
+    import re
+
+    return re.sub(r"(?m)^usage: (worker|native|run)\.py", "usage: PROG", text)
 
 
 def _same_outcome(a, b):
